@@ -124,9 +124,11 @@ func (c *vxC19CacheT) Del(key []byte)         {}
 func (c *vxC19CacheT) Clear()                 { c.keys, c.vals = nil, nil }
 func (c *vxC19CacheT) Stats() (s cache.Stats) { return s }
 
-// ---- own hex codec (branch-free) ----
+// ---- own hex encoder (table look-up: no path fork on symbolic bytes) ----
 
-func vxC19Nib(n byte) byte { return '0' + n + ((n+6)>>4)*39 }
+const vxC19Digits = "0123456789abcdef"
+
+func vxC19Nib(n byte) byte { return vxC19Digits[n] }
 
 func vxC19Hex(dst, src []byte) []byte {
 	for _, v := range src {
